@@ -16,12 +16,18 @@ THEOREMS = ["Qentem.Props.C17.cached_eq_fresh", "Qentem.Props.C17.cached_other_v
             "Qentem.Props.C17.interleave_independent"]
 
 
+def _ptr(rng, d):
+    """a pointer-to-value to d, sometimes through two or three hops"""
+    r = rng.random()
+    return ("p", d) if r < 0.7 else ("p", ("p", d)) if r < 0.93 else ("p", ("p", ("p", d)))
+
+
 def with_pointers(rng, doc):
     """wrap some container members into pointer values (Value::SetPointerToValue)"""
     if doc[0] == "o":
-        return ("o", [(k, ("p", with_pointers(rng, d)) if d[0] in "ao" and rng.random() < 0.5 else with_pointers(rng, d)) for k, d in doc[1]])
+        return ("o", [(k, _ptr(rng, with_pointers(rng, d)) if d[0] in "ao" and rng.random() < 0.5 else with_pointers(rng, d)) for k, d in doc[1]])
     if doc[0] == "a":
-        return ("a", [("p", with_pointers(rng, d)) if d[0] in "ao" and rng.random() < 0.3 else with_pointers(rng, d) for d in doc[1]])
+        return ("a", [_ptr(rng, with_pointers(rng, d)) if d[0] in "ao" and rng.random() < 0.3 else with_pointers(rng, d) for d in doc[1]])
     return doc
 
 
@@ -49,9 +55,9 @@ def pointer_sort_cases(rng):
         if rng.random() < 0.3:
             items = [("s", G.U(w)) for w in rng.sample(["pear", "apple", "fig", "kiwi", "date"], 3)]
         target = ("a", items) if rng.random() < 0.7 else ("o", [(G.U(k), d) for k, d in zip(["q", "p", "k", "d", "z"], items)])
-        doc = ("o", [(G.U("l"), ("p", target)), (G.U("n"), ("n", 1))])
+        doc = ("o", [(G.U("l"), _ptr(rng, target)), (G.U("n"), ("n", 1))])
         if rng.random() < 0.2:
-            doc = ("p", target)      # the root itself
+            doc = _ptr(rng, target)      # the root itself
             tmpl = '<loop value="v" sort="%s">{var:v},</loop>' % rng.choice(["ascend", "descend"])
         else:
             tmpl = '<loop set="l" value="v" sort="%s">{var:v},</loop>{var:n}' % rng.choice(["ascend", "descend"])
